@@ -29,6 +29,7 @@ pub(crate) fn run(name: &str, bound: usize, shard: usize, nshards: usize) -> Val
         "smart_quote" => api::smart_quote(bound),
         "ansi" => api::ansi(bound),
         "emoji_tables" => api::emoji_tables(bound, shard, nshards),
+        "fixed_dict" => api::fixed_dict(bound, shard, nshards),
         "suffix_forms" => api::suffix_forms(bound),
         "fixed_rules" => rules::run(bound, shard, nshards),
         _ => json!({"check": name, "error": "unknown check"}),
@@ -1848,6 +1849,7 @@ mod api {
         {
             let kt: Value = serde_json::from_str(&std::fs::read_to_string(crate::verif_driver::gen_file("keytable.json")).unwrap_or("[]".into())).unwrap_or(json!([]));
             let mains: Vec<(u16, String)> = kt.as_array().cloned().unwrap_or_default().iter().filter(|r| r["kind"] == "main").map(|r| (r["code"].as_u64().unwrap() as u16, r["name"].as_str().unwrap().to_string())).collect();
+            let bn_code_char: std::collections::HashMap<u16, char> = kt.as_array().cloned().unwrap_or_default().iter().filter_map(|r| Some((r["code"].as_u64()? as u16, r["char"].as_str()?.chars().next()?))).collect();
             let bn = tables["bengali_map"].as_object().cloned().unwrap_or_default();
             let mut cps: std::collections::BTreeSet<char> = bn.keys().flat_map(|k| k.chars()).collect();
             cps.insert('('); cps.insert(')');
@@ -1881,6 +1883,8 @@ mod api {
                     { let cs: Vec<char> = n.chars().collect(); let (_, w, _) = split::split_exec(&cs, true); if w != *n { skipped += 1; continue; } }
                     for wrapped in [false, true] {
                         let text = if wrapped { format!("({})", n) } else { n.clone() };
+                        // raw keys that happen to spell an emoticon: the emoticon wins over the name (C18), not this sweep's subject
+                        { let raw_keys: String = text.chars().map(|c| bn_code_char.get(&slot[&c].0).cloned().unwrap_or('?')).collect(); if tables["emoticon_map"].get(raw_keys.as_str()).is_some() { skipped += 1; continue; } }
                         let mut s = Sess::new(fcfg.clone());
                         let mut last = None;
                         for c in text.chars() { let (code, m) = slot[&c]; last = Some(s.code_mod(code, m, 0)); }
@@ -1906,6 +1910,112 @@ mod api {
             o.sample(json!({"bengali_names_reached": reached, "bengali_names_skipped_composition_differs": skipped, "code_points": cps.len(), "key_slots_used": slot.len()}));
             if reached == 0 { o.fail(json!({"clause": "C18 (machinery) no Bengali emoji name could be typed through the generated layout", "history": {"layout": path}})); }
         }
+        o.done()
+    }
+
+    /// a layout file generated for the purpose: every code point of `cps` gets its own key slot (plain plane first, then AltGr);
+    /// returns the path and the slot of every code point, or None when there are more code points than slots
+    pub(crate) fn generated_layout(cps: &std::collections::BTreeSet<char>, tag: &str) -> Option<(String, std::collections::HashMap<char, (u16, u8)>)> {
+        let kt: Value = serde_json::from_str(&std::fs::read_to_string(crate::verif_driver::gen_file("keytable.json")).unwrap_or("[]".into())).unwrap_or(json!([]));
+        let mains: Vec<(u16, String)> = kt.as_array().cloned().unwrap_or_default().iter().filter(|r| r["kind"] == "main").map(|r| (r["code"].as_u64().unwrap() as u16, r["name"].as_str().unwrap().to_string())).collect();
+        let mut raw: Value = serde_json::from_str(&std::fs::read_to_string(crate::verif_driver::synthetic_layout()).unwrap()).unwrap();
+        let mut slot: std::collections::HashMap<char, (u16, u8)> = std::collections::HashMap::new();
+        {
+            let lay = raw["layout"].as_object_mut().unwrap();
+            for (_, name) in mains.iter() { for m in ["Normal", "AltGr"] { lay.insert(format!("Key_{}_{}", name, m), json!("")); } }
+            let mut it = cps.iter();
+            'fill: for m in [0u8, 2u8] { for (code, name) in mains.iter() {
+                match it.next() { Some(c) => { lay.insert(format!("Key_{}_{}", name, if m == 2 { "AltGr" } else { "Normal" }), json!(c.to_string())); slot.insert(*c, (*code, m)); } None => break 'fill }
+            } }
+        }
+        if slot.len() != cps.len() { return None; }
+        let dir = crate::verif_driver::user_dir();
+        std::fs::create_dir_all(&dir).unwrap();
+        let path = format!("{}/verif-layout-{}.json", dir, tag);
+        std::fs::write(&path, serde_json::to_string(&raw).unwrap()).unwrap();
+        Some((path, slot))
+    }
+
+    /// C15 / C16 / C02, data-exhaustive: the words of dictionary.json typed in fixed mode through a generated layout (helpers off).
+    /// Oracle independent of the engine: the dictionary file itself, an edit-distance function, the emojicon tables.
+    pub(crate) fn fixed_dict(bound: usize, shard: usize, nshards: usize) -> Value {
+        let mut o = Out::new("fixed_dict", bound, "words of dictionary.json typed code point by code point in fixed mode through a layout file generated for the purpose (thorough: every word; quick: every 200th word + every word that contains a code point occurring in fewer than 300 words), suggestions on, ANSI off and on: first candidate = the word, no candidate twice, at most nine, the others are dictionary words beginning with it in non-decreasing edit distance, emoji from the emojicon sources; ANSI: pre-edit text = the dependency's encoding");
+        let table: std::collections::HashMap<String, Vec<String>> = serde_json::from_str(&std::fs::read_to_string(format!("{}/dictionary.json", crate::verif_driver::data_dir())).unwrap()).unwrap();
+        let mut all: Vec<String> = table.values().flatten().cloned().collect();
+        all.sort(); all.dedup();
+        let dict: std::collections::HashSet<&String> = all.iter().collect();
+        let mut freq: std::collections::HashMap<char, usize> = std::collections::HashMap::new();
+        for w in all.iter() { let cs: std::collections::BTreeSet<char> = w.chars().collect(); for c in cs { *freq.entry(c).or_insert(0) += 1; } }
+        let cps: std::collections::BTreeSet<char> = freq.keys().cloned().collect();
+        let tables: Value = serde_json::from_str(&std::fs::read_to_string(crate::verif_driver::gen_file("emoji_tables.json")).unwrap_or("{}".into())).unwrap_or(json!({}));
+        let (path, slot) = match generated_layout(&cps, &format!("dict-{}", shard)) { Some(x) => x, None => { o.fail(json!({"clause": "C15 (machinery) more code points in the dictionary than key slots", "history": {}})); return o.done(); } };
+        let code_char: std::collections::HashMap<u16, char> = { let kt: Value = serde_json::from_str(&std::fs::read_to_string(crate::verif_driver::gen_file("keytable.json")).unwrap_or("[]".into())).unwrap_or(json!([]));
+            kt.as_array().cloned().unwrap_or_default().iter().filter_map(|r| Some((r["code"].as_u64()? as u16, r["char"].as_str()?.chars().next()?))).collect() };
+        let step = if bound >= 2 { 1 } else { 200 };
+        let clean = |x: &str| -> String { x.chars().filter(|c| !"|()[]{}^$*+?.~!@#%&-_='\";<>/\\,:`\u{0964}\u{200C}\u{2018}\u{2019}\u{201C}\u{201D}".contains(*c)).collect() };
+        let mut reported = 0;
+        let (mut reached, mut skipped) = (0u64, 0u64);
+        for ansi in [false, true] {
+            let cfgv = json!({"layout": path, "database_dir": crate::verif_driver::data_dir(), "phonetic_suggestion": false, "include_english": false,
+                "fixed_suggestion": true, "fixed_vowel": false, "fixed_chandra": false, "fixed_kar": false, "fixed_old_reph": false,
+                "fixed_numpad": true, "fixed_kar_order": false, "ansi": ansi, "smart_quote": false});
+            let mut s = Sess::new(cfgv.clone());
+            for (k, w) in all.iter().enumerate() {
+                let rare = w.chars().any(|c| freq[&c] < 300);
+                if !(rare || k % step == 0) || k % nshards != shard { continue; }
+                if ansi && !rare && (k / step) % 4 != 0 && bound < 2 { continue; }
+                // three entries end in a full stop (মি.): the split takes it for trailing punctuation, the candidates are wrapped -- not words
+                { let cs: Vec<char> = w.chars().collect(); let (_, ww, _) = split::split_exec(&cs, true); if ww != *w { skipped += 1; continue; } }
+                // the session is kept short: a new context every 500 words keeps the recorded history replayable
+                if s.events.len() > 4000 { s = Sess::new(cfgv.clone()); }
+                let mut last = None;
+                for c in w.chars() { let (code, m) = slot[&c]; last = Some(s.code_mod(code, m, 0)); }
+                let sg = match last { Some(x) => x, None => continue };
+                if sg.is_lonely() || sg.get_auxiliary_text() != w.as_str() { skipped += 1; s.finish(); continue; }
+                o.cases += 1;
+                reached += 1;
+                let list = texts(&sg);
+                let mut bad: Vec<String> = Vec::new();
+                if list.is_empty() || &list[0] != w { bad.push("C15 the first candidate is the composed text itself".into()); }
+                if list.len() > 9 { bad.push("C15 at most nine candidates".into()); }
+                for i in 0..list.len() { for j in 0..i { if list[i] == list[j] { bad.push("C15 no candidate repeats".into()); } } }
+                // the raw keys of the generated layout may happen to spell an emoticon (ট + ু on the keys `=` `z` ...): then its emoji
+                // is offered instead of the emoji of a Bengali name (C18: the emoticon typed wins)
+                let raw_keys: String = w.chars().map(|c| code_char.get(&slot[&c].0).cloned().unwrap_or('?')).collect();
+                let emojis: Vec<String> = match tables["emoticon_map"][raw_keys.as_str()].as_str() {
+                    Some(e) => vec![e.to_string()],
+                    None => tables["bengali_map"][w.as_str()].as_array().map(|a| a.iter().map(|x| x.as_str().unwrap().to_string()).collect()).unwrap_or_default(),
+                };
+                let mut prev = 0usize;
+                for (i, x) in list.iter().enumerate() {
+                    if i == 0 { continue; }
+                    if emojis.contains(x) { if ansi { bad.push("C16 ANSI: no emoji candidate".into()); } continue; }
+                    if !dict.contains(x) { bad.push("C15 every other non-emoji candidate is a dictionary word".into()); }
+                    if !clean(x).starts_with(&clean(w)) { bad.push("C15 candidates begin with the typed word".into()); }
+                    let d = edit_distance::edit_distance(w, x);
+                    if d < prev { bad.push("C15 non-emoji candidates in non-decreasing edit distance".into()); }
+                    prev = d;
+                }
+                if !ansi { for e in emojis.iter().take(if list.len() >= 9 { 0 } else { emojis.len() }) { if !list.contains(e) { bad.push("C18 a Bengali emoji name offers all its emoji".into()); } } }
+                for i in 0..list.len() {
+                    let want = if ansi { match std::panic::catch_unwind(|| poriborton::bijoy2000::unicode_to_bijoy(&list[i])) { Ok(x) => x, Err(_) => continue } } else { list[i].clone() };
+                    match std::panic::catch_unwind(std::panic::AssertUnwindSafe(|| sg.get_pre_edit_text(i))) {
+                        Ok(pe) => {
+                            if pe != want { bad.push("C16 the pre-edit text is the candidate (ANSI: its Bijoy encoding)".into()); }
+                            if ansi && pe.chars().any(|c| ('\u{0980}'..='\u{09FF}').contains(&c)) { bad.push("C16 no Bengali-block code point in an ANSI pre-edit text".into()); }
+                        }
+                        Err(_) => bad.push("C02 C16 every index below the length can be read as pre-edit text".into()),
+                    }
+                }
+                bad.sort(); bad.dedup();
+                for b in bad { if reported < 6 { reported += 1; o.fail(json!({"clause": b, "word": w, "ansi": ansi, "history": {"config": cfgv, "events": w.chars().map(|c| json!({"code": slot[&c].0, "mod": slot[&c].1})).collect::<Vec<_>>() }, "observed": list})); } }
+                s.finish();
+                o.nontrivial += 1;
+            }
+        }
+        let _ = std::fs::remove_file(&path);
+        o.sample(json!({"dictionary_words": all.len(), "words_reached": reached, "skipped_composition_differs": skipped, "code_points": cps.len()}));
+        if reached == 0 { o.fail(json!({"clause": "C15 (machinery) no dictionary word could be typed through the generated layout", "history": {}})); }
         o.done()
     }
 
